@@ -354,7 +354,7 @@ class Check:
         'known_findings_reported': self.known_lines,
     }
     replaying = getattr(self, 'replay_of', None)
-    if not replaying:          # a replay re-runs recorded inputs: it does not stand for the state of the tree in evidence/
+    if not replaying and REPO == '/repo':   # evidence/ describes /repo itself: neither a replay nor a run on a scratch copy (VERIF_REPO) is written there
       os.makedirs(os.path.join(VERIF, 'evidence'), exist_ok=True)
       with open(os.path.join(VERIF, 'evidence', self.pid + '.json'), 'w') as f:
         json.dump(ev, f, indent=1, default=str)
